@@ -18,6 +18,7 @@
                   non-empty since before its previous tick                              (C19)
        "done"     a worker answers Ok(false) while an entry queued before its request is still in one of its shards (C02)
        "pinret"   a retirement is decided (marker write) while a reader's pin on that generation is open   (C08)
+       "round"    the coordinator's ticks do not cycle through all workers (a wake loop that ends early)  (C19)
        "lag"      six coordinator periods after the last call something is still queued, in a hand, or
                   waiting for retirement with no reader pinned; or the coordinator did not tick (C19)
 
@@ -28,18 +29,18 @@
      settled{ticks,pinned}  closed{failed}                                                                        *)
 EXTENDS Coord, Json, IOUtils
 
-VARIABLES l, flags, age, lost, reqmark
+VARIABLES l, flags, age, lost, reqmark, lastTick
 
 Rec == ndJsonDeserialize(IOEnv.TRACE)
 Ev  == Rec[l]
-tvars == <<vars, l, flags, age, lost, reqmark>>
+tvars == <<vars, l, flags, age, lost, reqmark, lastTick>>
 
 TNS == Rec[1].ns
 TNW == Rec[1].nw
 TMaxEnt == Rec[1].nent
 TNCallers == Rec[1].ncallers
 
-TInit == Init /\ l = 2 /\ flags = {} /\ age = [s \in Shards |-> 0] /\ lost = {} /\ reqmark = [w \in Workers |-> 1]
+TInit == Init /\ l = 2 /\ flags = {} /\ age = [s \in Shards |-> 0] /\ lost = {} /\ reqmark = [w \in Workers |-> 1] /\ lastTick = NW - 1
 
 Without(seq, S) == SelectSeq(seq, LAMBDA x : x \notin S)
 SeqSet(seq) == {seq[i] : i \in DOMAIN seq}
@@ -104,7 +105,11 @@ TRet == /\ Ev.e = "ret" /\ retq' = retq \ {Ev.id} /\ retired' = retired \cup {Ev
 
 TTick ==
   /\ Ev.e = "tick"
-  /\ flags' = IF Ev.pending = 0 /\ \E s \in Owned(Ev.w) : q[s] # <<>> /\ age[s] >= 1 THEN {"tick"} ELSE {}
+  \* Coord's Tick looks at EVERY worker in turn, whatever it found for the earlier ones (TickWhenRet): the recorded ticks
+  \* cycle through 0 .. NW-1
+  /\ flags' = (IF Ev.pending = 0 /\ \E s \in Owned(Ev.w) : q[s] # <<>> /\ age[s] >= 1 THEN {"tick"} ELSE {})
+              \cup (IF Ev.w # (lastTick + 1) % NW THEN {"round"} ELSE {})
+  /\ lastTick' = Ev.w
   /\ age' = [s \in Shards |-> IF s \in Owned(Ev.w) THEN (IF q[s] # <<>> THEN MinN(age[s] + 1, 3) ELSE 0) ELSE age[s]]
   /\ UNCHANGED <<nxt, kind, sh, q, hand, done, retq, retired, wk, ff>>
 
@@ -132,6 +137,7 @@ TNext ==
   /\ l <= Len(Rec) /\ l' = l + 1 /\ Keep
   /\ (Ev.e # "wdone" => lost' = lost)
   /\ (Ev.e # "wreq" => reqmark' = reqmark)
+  /\ (Ev.e # "tick" => lastTick' = lastTick)
   /\ \/ TEnq \/ TDrain \/ TPub \/ TRequeue \/ TRequeueDone \/ TWReq \/ TWDone \/ TRet \/ TTick
      \/ TFlushBegin \/ TFlushEnd \/ TFlushRet \/ TSettled \/ TClosed
 
@@ -144,7 +150,7 @@ NothingLost   == lost = {}
 NoFlags == flags = {}
 DrainAll    == "drain" \notin flags
 RequeueKept == "requeue" \notin flags
-TickHonest  == "tick" \notin flags
+TickHonest  == flags \cap {"tick", "round"} = {}
 NoLag       == "lag" \notin flags
 RetireRespectsPins == "pinret" \notin flags
 DoneMeansDone == "done" \notin flags
